@@ -580,6 +580,14 @@ class Interp:
 
     def ev_BoolOp(self, e, fr):
         is_and = isinstance(e.op, ast.And)
+        if self.path.guards:
+            # inside a lazily evaluated sequence element: combine the operands as a term when all of them are plain booleans
+            # (comparisons, `is None` tests); evaluation order does not matter for those
+            vals = [self.ev(sub, fr) for sub in e.values]
+            if all(isinstance(v, (SBool, bool)) for v in vals):
+                ts = [v.t if isinstance(v, SBool) else z3.BoolVal(v) for v in vals]
+                return SBool(z3.And(*ts) if is_and else z3.Or(*ts))
+            raise Unsupported("boolean operator over non-boolean operands inside a lazily evaluated sequence element")
         last = None
         for sub in e.values:
             last = self.ev(sub, fr)
